@@ -67,6 +67,9 @@ type RuleRep struct {
 }
 
 func (rr *RuleRep) add(status, construct string, pos token.Pos, nontriv bool, format string, args ...interface{}) {
+	if rr == nil {
+		return
+	}
 	r := rr.r
 	key := rr.id + " @ " + construct
 	n := r.seen[key]
@@ -106,6 +109,9 @@ func (rr *RuleRep) Lost(construct string, format string, args ...interface{}) {
 
 // Check is shorthand: discharged if cond, violated otherwise.
 func (rr *RuleRep) Check(cond bool, construct string, pos token.Pos, okWhy, badWhy string) bool {
+	if rr == nil {
+		return cond
+	}
 	if cond {
 		rr.OK(construct, pos, "%s", okWhy)
 	} else {
@@ -116,6 +122,9 @@ func (rr *RuleRep) Check(cond bool, construct string, pos token.Pos, okWhy, badW
 
 // Floor demands that at least n obligations were examined under this rule.
 func (rr *RuleRep) Floor(n int) {
+	if rr == nil {
+		return
+	}
 	rr.r.floors[rr.id] = n
 }
 
